@@ -247,6 +247,26 @@ def siblings(prog, rep, fam):
                   f"scipy.stats.{d}.{m}", f"must call scipy.stats.{dist}.{smeth}, calls {show(t[1])}")
         args = t[2]
         kw = dict(t[3])
+        # scipy parameters given by keyword (loc=, scale=, c=, ...) are put at their position in scipy's own signature
+        sig_ = scipyinfo.positional_signature(dist)
+        lead = 0 if mname == "draw_sample" else 1
+        if kw and not any(a[0] == "star" for a in args) and "**" not in kw:
+            full = list(args)
+            okpos = True
+            for k_, sn in enumerate(sig_):
+                posn = lead + k_
+                if posn < len(full):
+                    if sn in kw:
+                        okpos = False
+                    continue
+                if sn in kw and posn == len(full):
+                    full.append(kw.pop(sn))
+                else:
+                    break
+            if okpos:
+                args = tuple(full)
+            else:
+                kw = dict(t[3])
         if mname == "draw_sample":
             rep.check(tuple(args) == tuple(S), "C05.siblings", inst + ":slots", site, "rvs(*slots)",
                       f"rvs must receive exactly the slot tuple of _get_scipy_parameters({', '.join(pn)}); got {[show(a)[:40] for a in args]}")
